@@ -1219,6 +1219,16 @@ bool OSSLRSA::encrypt(PublicKey* publicKey, const ByteString& data,
 	// Retrieve the OpenSSL key object
 	RSA* rsa = ((OSSLRSAPublicKey*) publicKey)->getOSSLKey();
 
+	// The key object may carry any bytes: without a modulus RSA_size() cannot be used
+	const BIGNUM* bn_n = NULL;
+	if (rsa != NULL) RSA_get0_key(rsa, &bn_n, NULL, NULL);
+	if (bn_n == NULL || BN_is_zero(bn_n))
+	{
+		ERROR_MSG("The RSA key has no modulus");
+
+		return false;
+	}
+
 	// Check the data and padding algorithm
 	int osslPadding = 0;
 
@@ -1294,6 +1304,16 @@ bool OSSLRSA::decrypt(PrivateKey* privateKey, const ByteString& encryptedData,
 
 	// Retrieve the OpenSSL key object
 	RSA* rsa = ((OSSLRSAPrivateKey*) privateKey)->getOSSLKey();
+
+	// The key object may carry any bytes: without a modulus RSA_size() cannot be used
+	const BIGNUM* bn_n = NULL;
+	if (rsa != NULL) RSA_get0_key(rsa, &bn_n, NULL, NULL);
+	if (bn_n == NULL || BN_is_zero(bn_n))
+	{
+		ERROR_MSG("The RSA key has no modulus");
+
+		return false;
+	}
 
 	// Check the input size
 	if (encryptedData.size() != (size_t) RSA_size(rsa))
